@@ -18,6 +18,27 @@ CHECKS = {
         design_ref="DESIGN.md §6 C02"),
 }
 
+CHECKS["C14"] = dict(
+    technique="Lean 4 proof: invariant by induction over all op histories of the gateway model (one case per handler via a generic combinator induction) + differential correspondence of the model against the real gateway + oracle on real save/stop/restart",
+    text="Theorem clean_stop_loses_nothing: for every history of inbound lines, controller calls, save ticks and restarts, "
+         "stop() followed by a fresh start reproduces the persisted projection; change_marks_dirty: every step that changes "
+         "what persistence keeps sets need_save (the induction has one case per handler, so a handler that forgets the dirty "
+         "mark is an unprovable case). The model is diffed against the real gateway (need_save flag and tree after every op) "
+         "on generated histories with real json/pickle files.",
+    note="Trusted: Lean kernel; Model/Gateway.lean as a model of __init__.py/handler.py/sensor.py/ota.py (validated by the "
+         "correspondence, not proved); persistence abstracted to 'file = persisted projection of last successful save' "
+         "(formats: C11, atomicity: C12); tables regenerated from /repo.",
+    design_ref="DESIGN.md §6 C14")
+CHECKS["C06"] = dict(
+    technique="Lean 4 proof: history induction (known-node set grows, allocator picks max+1 <= 254, clean restart restores the set by C14's invariant) + differential correspondence + oracle on real id responses across restarts",
+    text="Theorem allocs_spec / ids_never_twice: over every history (any ops, clean stop/restart cycles with persistence) the "
+         "ids allocated for accepted id requests are pairwise distinct, in 1..254 and unknown when allocated; alloc_reply ties "
+         "the allocation to the id-response line; no response when no id is free. Correspondence compares emitted lines and the "
+         "known-id set per op; the oracle collects id-response payloads across real restarts sharing one file.",
+    note="Trusted: Lean kernel; Model/Gateway.lean (validated by correspondence); persistence abstraction as in C14; the ghost "
+         "definition allocs (ties to the emitted line by theorem alloc_reply).",
+    design_ref="DESIGN.md §6 C06")
+
 NOT_YET = {
 }
 
